@@ -22,14 +22,14 @@ const (
 
 // Obligation is one instance of a rule on one construct.
 type Obligation struct {
-	Rule      string  `json:"rule"`      // e.g. C07.errors
-	Construct string  `json:"construct"` // stable key: function / call site / field, never a line
-	Config    string  `json:"config"`    // build configuration
-	Verdict   Verdict `json:"verdict"`
-	Pos       string  `json:"pos,omitempty"`
-	Detail    string  `json:"detail,omitempty"`
+	Rule      string   `json:"rule"`      // e.g. C07.errors
+	Construct string   `json:"construct"` // stable key: function / call site / field, never a line
+	Config    string   `json:"config"`    // build configuration
+	Verdict   Verdict  `json:"verdict"`
+	Pos       string   `json:"pos,omitempty"`
+	Detail    string   `json:"detail,omitempty"`
 	Path      []string `json:"path,omitempty"` // offending path (program points), for path rules
-	Trivial   bool    `json:"trivial,omitempty"`
+	Trivial   bool     `json:"trivial,omitempty"`
 }
 
 // Key identifies an obligation across runs and configurations.
